@@ -232,4 +232,302 @@ Definition ctor_spec (p : dprog) (args : list dval) (ops : list nat) : Prop :=
     map fst es = ops ->
     exists g l, drun fapp heap (hext rd) p fuel depth args h = DRet heap [encCtx (mkCtx h ops es)] h g l.
 
+
+(* ---------- the tactic: a generated body is (convertible to) [ctorBody opnames] on its parameter environment ---------- *)
+
+Ltac ctor_tac prog opnames :=
+  let fuel := fresh "fuel" in let depth := fresh "depth" in let h := fresh "h" in let es := fresh "es" in
+  let Hlt := fresh "Hlt" in let Hes := fresh "Hes" in
+  intros fuel depth h es Hlt Hes; unfold drun, prog; cbn [pmain dparams dbody plocals dbind];
+  match goal with
+  | |- exists g l, dexec _ _ _ ?cl ?fu true _ h ?g0 [] = DRet _ [encCtx (mkCtx h ?ns es)] h g l =>
+      let H := fresh "Hb" in let g' := fresh "g'" in let E := fresh "E" in
+      assert (H : binds g0 opnames ns) by (repeat (apply Forall2_cons; [reflexivity|]); apply Forall2_nil);
+      destruct (ctor_generic cl fu opnames ns es h g0 H eq_refl Hlt Hes) as [g' E];
+      exists g', []; exact E
+  end.
+
+(* ---------- one theorem per constructor (all of ctor_table except Concat) ---------- *)
+(* [yv] = the result tensor y (only captured by the closures: any value), operands = node ids, extra arguments
+   (index, dim, the float a) = any values. *)
+
+Theorem ctor_Slice (yv : dval) (x : nat) (iv : dval) : ctor_spec c_Slice [yv; dnode x; iv] [x].
+Proof. ctor_tac c_Slice ["x"]. Qed.
+
+Theorem ctor_Patch (yv : dval) (x p : nat) (iv : dval) : ctor_spec c_Patch [yv; dnode x; dnode p; iv] [x; p].
+Proof. ctor_tac c_Patch ["x"; "p"]. Qed.
+
+Theorem ctor_Transpose (yv : dval) (x : nat) : ctor_spec c_Transpose [yv; dnode x] [x].
+Proof. ctor_tac c_Transpose ["x"]. Qed.
+
+Theorem ctor_Reshape (yv : dval) (x : nat) : ctor_spec c_Reshape [yv; dnode x] [x].
+Proof. ctor_tac c_Reshape ["x"]. Qed.
+
+Theorem ctor_UnSqueeze (yv : dval) (x : nat) : ctor_spec c_UnSqueeze [yv; dnode x] [x].
+Proof. ctor_tac c_UnSqueeze ["x"]. Qed.
+
+Theorem ctor_Squeeze (yv : dval) (x : nat) : ctor_spec c_Squeeze [yv; dnode x] [x].
+Proof. ctor_tac c_Squeeze ["x"]. Qed.
+
+Theorem ctor_Flatten (yv : dval) (x : nat) : ctor_spec c_Flatten [yv; dnode x] [x].
+Proof. ctor_tac c_Flatten ["x"]. Qed.
+
+Theorem ctor_Broadcast (yv : dval) (x : nat) : ctor_spec c_Broadcast [yv; dnode x] [x].
+Proof. ctor_tac c_Broadcast ["x"]. Qed.
+
+Theorem ctor_SumAlong (yv : dval) (x : nat) (dimv : dval) : ctor_spec c_SumAlong [yv; dnode x; dimv] [x].
+Proof. ctor_tac c_SumAlong ["x"]. Qed.
+
+Theorem ctor_MaxAlong (yv : dval) (x : nat) (dimv : dval) : ctor_spec c_MaxAlong [yv; dnode x; dimv] [x].
+Proof. ctor_tac c_MaxAlong ["x"]. Qed.
+
+Theorem ctor_MinAlong (yv : dval) (x : nat) (dimv : dval) : ctor_spec c_MinAlong [yv; dnode x; dimv] [x].
+Proof. ctor_tac c_MinAlong ["x"]. Qed.
+
+Theorem ctor_AvgAlong (yv : dval) (x : nat) (dimv : dval) : ctor_spec c_AvgAlong [yv; dnode x; dimv] [x].
+Proof. ctor_tac c_AvgAlong ["x"]. Qed.
+
+Theorem ctor_VarAlong (yv : dval) (x : nat) (dimv : dval) : ctor_spec c_VarAlong [yv; dnode x; dimv] [x].
+Proof. ctor_tac c_VarAlong ["x"]. Qed.
+
+Theorem ctor_StdAlong (yv : dval) (x : nat) (dimv : dval) : ctor_spec c_StdAlong [yv; dnode x; dimv] [x].
+Proof. ctor_tac c_StdAlong ["x"]. Qed.
+
+Theorem ctor_MeanAlong (yv : dval) (x : nat) (dimv : dval) : ctor_spec c_MeanAlong [yv; dnode x; dimv] [x].
+Proof. ctor_tac c_MeanAlong ["x"]. Qed.
+
+Theorem ctor_Scale (yv : dval) (x : nat) (av : dval) : ctor_spec c_Scale [yv; dnode x; av] [x].
+Proof. ctor_tac c_Scale ["x"]. Qed.
+
+Theorem ctor_Pow (yv : dval) (x : nat) (av : dval) : ctor_spec c_Pow [yv; dnode x; av] [x].
+Proof. ctor_tac c_Pow ["x"]. Qed.
+
+Theorem ctor_Exp (yv : dval) (x : nat) : ctor_spec c_Exp [yv; dnode x] [x].
+Proof. ctor_tac c_Exp ["x"]. Qed.
+
+Theorem ctor_Log (yv : dval) (x : nat) : ctor_spec c_Log [yv; dnode x] [x].
+Proof. ctor_tac c_Log ["x"]. Qed.
+
+Theorem ctor_Sin (yv : dval) (x : nat) : ctor_spec c_Sin [yv; dnode x] [x].
+Proof. ctor_tac c_Sin ["x"]. Qed.
+
+Theorem ctor_Cos (yv : dval) (x : nat) : ctor_spec c_Cos [yv; dnode x] [x].
+Proof. ctor_tac c_Cos ["x"]. Qed.
+
+Theorem ctor_Tan (yv : dval) (x : nat) : ctor_spec c_Tan [yv; dnode x] [x].
+Proof. ctor_tac c_Tan ["x"]. Qed.
+
+Theorem ctor_Sinh (yv : dval) (x : nat) : ctor_spec c_Sinh [yv; dnode x] [x].
+Proof. ctor_tac c_Sinh ["x"]. Qed.
+
+Theorem ctor_Cosh (yv : dval) (x : nat) : ctor_spec c_Cosh [yv; dnode x] [x].
+Proof. ctor_tac c_Cosh ["x"]. Qed.
+
+Theorem ctor_Tanh (yv : dval) (x : nat) : ctor_spec c_Tanh [yv; dnode x] [x].
+Proof. ctor_tac c_Tanh ["x"]. Qed.
+
+Theorem ctor_ElMax (yv : dval) (a b : nat) : ctor_spec c_ElMax [yv; dnode a; dnode b] [a; b].
+Proof. ctor_tac c_ElMax ["a"; "b"]. Qed.
+
+Theorem ctor_ElMin (yv : dval) (a b : nat) : ctor_spec c_ElMin [yv; dnode a; dnode b] [a; b].
+Proof. ctor_tac c_ElMin ["a"; "b"]. Qed.
+
+Theorem ctor_Add (yv : dval) (a b : nat) : ctor_spec c_Add [yv; dnode a; dnode b] [a; b].
+Proof. ctor_tac c_Add ["a"; "b"]. Qed.
+
+Theorem ctor_Sub (yv : dval) (a b : nat) : ctor_spec c_Sub [yv; dnode a; dnode b] [a; b].
+Proof. ctor_tac c_Sub ["a"; "b"]. Qed.
+
+Theorem ctor_Mul (yv : dval) (a b : nat) : ctor_spec c_Mul [yv; dnode a; dnode b] [a; b].
+Proof. ctor_tac c_Mul ["a"; "b"]. Qed.
+
+Theorem ctor_Div (yv : dval) (a b : nat) : ctor_spec c_Div [yv; dnode a; dnode b] [a; b].
+Proof. ctor_tac c_Div ["a"; "b"]. Qed.
+
+Theorem ctor_Dot (yv : dval) (a b : nat) : ctor_spec c_Dot [yv; dnode a; dnode b] [a; b].
+Proof. ctor_tac c_Dot ["a"; "b"]. Qed.
+
+Theorem ctor_MatMul (yv : dval) (a b : nat) : ctor_spec c_MatMul [yv; dnode a; dnode b] [a; b].
+Proof. ctor_tac c_MatMul ["a"; "b"]. Qed.
+
+(* ---------- the targets of the model's edges (Model/Grad.v h_* methods), in order = the operands ---------- *)
+
+Lemma targets_op1 (x : nat) (r : rule) : map fst [(x, r)] = [x].
+Proof. reflexivity. Qed.
+Lemma targets_patch (y x p : nat) index : map fst [(x, RPatchX y p index); (p, @RPatchP A y p index)] = [x; p].
+Proof. reflexivity. Qed.
+Lemma targets_elsel (y x u : nat) : map fst [(x, RElSel y x u); (u, @RElSel A y u x)] = [x; u].
+Proof. reflexivity. Qed.
+Lemma targets_arith (b : binary) (y a1 a2 : nat) :
+  b = BiAdd \/ b = BiSub \/ b = BiMul \/ b = BiDiv -> map fst (@arithEdges A b y a1 a2) = [a1; a2].
+Proof. intros [-> | [-> | [-> | ->]]]; reflexivity. Qed.
+Lemma targets_dot (y a1 a2 : nat) : map fst [(a1, RDot y a2); (a2, @RDot A y a1)] = [a1; a2].
+Proof. reflexivity. Qed.
+Lemma targets_matmul (y a1 a2 : nat) : map fst [(a1, RMatMulA y a2); (a2, @RMatMulB A y a1)] = [a1; a2].
+Proof. reflexivity. Qed.
+
+(* instances with the model's own edge lists (y = the id the model gives the result) *)
+Corollary ctor_Patch_model (yv iv : dval) (x p y : nat) index fuel depth (h : heap) :
+  (x < length h)%nat -> (p < length h)%nat ->
+  exists g l, drun fapp heap (hext rd) c_Patch fuel depth [yv; dnode x; dnode p; iv] h =
+              DRet heap [encCtx (mkCtx h [x; p] [(x, RPatchX y p index); (p, RPatchP y p index)])] h g l.
+Proof. intros Hx Hp. apply ctor_Patch; [repeat constructor; assumption | reflexivity]. Qed.
+
+Corollary ctor_arith_model (b : binary) (prog : dprog) (yv : dval) (a1 a2 y : nat) fuel depth (h : heap) :
+  (b = BiAdd /\ prog = c_Add) \/ (b = BiSub /\ prog = c_Sub) \/ (b = BiMul /\ prog = c_Mul) \/ (b = BiDiv /\ prog = c_Div) ->
+  (a1 < length h)%nat -> (a2 < length h)%nat ->
+  exists g l, drun fapp heap (hext rd) prog fuel depth [yv; dnode a1; dnode a2] h =
+              DRet heap [encCtx (mkCtx h [a1; a2] (arithEdges b y a1 a2))] h g l.
+Proof.
+  intros Hb H1 H2.
+  assert (Hlt : Forall (fun n => (n < length h)%nat) [a1; a2]) by (repeat constructor; assumption).
+  destruct Hb as [[-> ->] | [[-> ->] | [[-> ->] | [-> ->]]]].
+  - apply ctor_Add; [exact Hlt | reflexivity].
+  - apply ctor_Sub; [exact Hlt | reflexivity].
+  - apply ctor_Mul; [exact Hlt | reflexivity].
+  - apply ctor_Div; [exact Hlt | reflexivity].
+Qed.
+
+(* ---------- summary over the table ---------- *)
+
+Lemma ctor_table_names :
+  length ctor_table = 34%nat /\
+  map fst ctor_table =
+  ["Concat"; "Slice"; "Patch"; "Transpose"; "Reshape"; "UnSqueeze"; "Squeeze"; "Flatten"; "Broadcast";
+   "SumAlong"; "MaxAlong"; "MinAlong"; "AvgAlong"; "VarAlong"; "StdAlong"; "MeanAlong"; "Scale"; "Pow";
+   "Exp"; "Log"; "Sin"; "Cos"; "Tan"; "Sinh"; "Cosh"; "Tanh"; "ElMax"; "ElMin"; "Add"; "Sub"; "Mul"; "Div";
+   "Dot"; "MatMul"] /\
+  map snd ctor_table =
+  [c_Concat; c_Slice; c_Patch; c_Transpose; c_Reshape; c_UnSqueeze; c_Squeeze; c_Flatten; c_Broadcast;
+   c_SumAlong; c_MaxAlong; c_MinAlong; c_AvgAlong; c_VarAlong; c_StdAlong; c_MeanAlong; c_Scale; c_Pow;
+   c_Exp; c_Log; c_Sin; c_Cos; c_Tan; c_Sinh; c_Cosh; c_Tanh; c_ElMax; c_ElMin; c_Add; c_Sub; c_Mul; c_Div;
+   c_Dot; c_MatMul].
+Proof. repeat split. Qed.
+
+(* every entry but the first (Concat): some number of tensor operands after y, some number of extra arguments, and
+   for ALL such argument lists the program returns the model's context with the operands as targets, in order *)
+Definition ctor_ok (p : dprog) : Prop :=
+  exists nops nextra : nat,
+    forall (yv : dval) (ops : list nat) (extras : list dval),
+      length ops = nops -> length extras = nextra ->
+      ctor_spec p (yv :: map dnode ops ++ extras) ops.
+
+Ltac ok_tac nops nextra lem :=
+  exists nops, nextra; intros yv ops extras Ho He;
+  repeat (let o := fresh "o" in destruct ops as [|o ops]; try discriminate Ho);
+  repeat (let e := fresh "e" in destruct extras as [|e extras]; try discriminate He);
+  cbn [map app]; apply lem.
+
+Theorem ctor_table_ok : Forall (fun e => ctor_ok (snd e)) (tl ctor_table).
+Proof.
+  unfold ctor_table. cbn [tl].
+  repeat (apply Forall_cons; [cbn [snd] |]); [.. | apply Forall_nil].
+  - ok_tac 1%nat 1%nat ctor_Slice.
+  - ok_tac 2%nat 1%nat ctor_Patch.
+  - ok_tac 1%nat 0%nat ctor_Transpose.
+  - ok_tac 1%nat 0%nat ctor_Reshape.
+  - ok_tac 1%nat 0%nat ctor_UnSqueeze.
+  - ok_tac 1%nat 0%nat ctor_Squeeze.
+  - ok_tac 1%nat 0%nat ctor_Flatten.
+  - ok_tac 1%nat 0%nat ctor_Broadcast.
+  - ok_tac 1%nat 1%nat ctor_SumAlong.
+  - ok_tac 1%nat 1%nat ctor_MaxAlong.
+  - ok_tac 1%nat 1%nat ctor_MinAlong.
+  - ok_tac 1%nat 1%nat ctor_AvgAlong.
+  - ok_tac 1%nat 1%nat ctor_VarAlong.
+  - ok_tac 1%nat 1%nat ctor_StdAlong.
+  - ok_tac 1%nat 1%nat ctor_MeanAlong.
+  - ok_tac 1%nat 1%nat ctor_Scale.
+  - ok_tac 1%nat 1%nat ctor_Pow.
+  - ok_tac 1%nat 0%nat ctor_Exp.
+  - ok_tac 1%nat 0%nat ctor_Log.
+  - ok_tac 1%nat 0%nat ctor_Sin.
+  - ok_tac 1%nat 0%nat ctor_Cos.
+  - ok_tac 1%nat 0%nat ctor_Tan.
+  - ok_tac 1%nat 0%nat ctor_Sinh.
+  - ok_tac 1%nat 0%nat ctor_Cosh.
+  - ok_tac 1%nat 0%nat ctor_Tanh.
+  - ok_tac 2%nat 0%nat ctor_ElMax.
+  - ok_tac 2%nat 0%nat ctor_ElMin.
+  - ok_tac 2%nat 0%nat ctor_Add.
+  - ok_tac 2%nat 0%nat ctor_Sub.
+  - ok_tac 2%nat 0%nat ctor_Mul.
+  - ok_tac 2%nat 0%nat ctor_Div.
+  - ok_tac 2%nat 0%nat ctor_Dot.
+  - ok_tac 2%nat 0%nat ctor_MatMul.
+Qed.
+
 End Ctor.
+
+(* ---------- concrete runs (free scalar algebra [term]) ---------- *)
+Section Examples.
+Let leafT : tensor term := mkT [] (Sc s0).
+Let nd (tr di : bool) : @node term := mkNode leafT tr di None [] None.
+Let fa : string -> list term -> option term := fun _ _ => None.
+
+(* operands 0 (untracked) and 1 (tracked): tracked context, edges [0,0] and [1,1] *)
+Example run_Add :
+  drun fa _ (hext RedAvg) c_Add 0 0 [DI 2; DI 0; DI 1] [nd false false; nd true false] =
+  DRet _ [DL [DB true; DB false; DL [DL [DI 0; DI 0]; DL [DI 1; DI 1]]]] [nd false false; nd true false]
+       [("y", DI 2); ("a", DI 0); ("b", DI 1); ("gctx", DNil); ("$1", DB false); ("$2", DB false)] [].
+Proof. vm_compute. reflexivity. Qed.
+
+(* a spent operand: dirty context, no edges *)
+Example run_Patch_dirty :
+  drun fa _ (hext RedAvg) c_Patch 0 0 [DI 2; DI 0; DI 1; DNil] [nd true false; nd true true] =
+  DRet _ [DL [DB false; DB true; DL []]] [nd true false; nd true true]
+       [("y", DI 2); ("x", DI 0); ("p", DI 1); ("index", DNil); ("gctx", DNil); ("$1", DB true)] [].
+Proof. vm_compute. reflexivity. Qed.
+
+(* no tracked operand: plain untracked context *)
+Example run_Exp_untracked :
+  drun fa _ (hext RedAvg) c_Exp 0 0 [DI 1; DI 0] [nd false false] =
+  DRet _ [DL [DB false; DB false; DL []]] [nd false false]
+       [("y", DI 1); ("x", DI 0); ("gctx", DNil); ("$1", DB false); ("$2", DB true)] [].
+Proof. vm_compute. reflexivity. Qed.
+
+(* an operand that is not a node of the heap: the oracle has no answer (the hypothesis [n < length h] is needed) *)
+Example run_Exp_dangling :
+  drun fa _ (hext RedAvg) c_Exp 0 0 [DI 1; DI 7] [nd false false] = DPanic _.
+Proof. vm_compute. reflexivity. Qed.
+End Examples.
+
+Print Assumptions ctor_generic.
+Print Assumptions encCtx_mkCtx.
+Print Assumptions ctor_Slice.
+Print Assumptions ctor_Patch.
+Print Assumptions ctor_Transpose.
+Print Assumptions ctor_Reshape.
+Print Assumptions ctor_UnSqueeze.
+Print Assumptions ctor_Squeeze.
+Print Assumptions ctor_Flatten.
+Print Assumptions ctor_Broadcast.
+Print Assumptions ctor_SumAlong.
+Print Assumptions ctor_MaxAlong.
+Print Assumptions ctor_MinAlong.
+Print Assumptions ctor_AvgAlong.
+Print Assumptions ctor_VarAlong.
+Print Assumptions ctor_StdAlong.
+Print Assumptions ctor_MeanAlong.
+Print Assumptions ctor_Scale.
+Print Assumptions ctor_Pow.
+Print Assumptions ctor_Exp.
+Print Assumptions ctor_Log.
+Print Assumptions ctor_Sin.
+Print Assumptions ctor_Cos.
+Print Assumptions ctor_Tan.
+Print Assumptions ctor_Sinh.
+Print Assumptions ctor_Cosh.
+Print Assumptions ctor_Tanh.
+Print Assumptions ctor_ElMax.
+Print Assumptions ctor_ElMin.
+Print Assumptions ctor_Add.
+Print Assumptions ctor_Sub.
+Print Assumptions ctor_Mul.
+Print Assumptions ctor_Div.
+Print Assumptions ctor_Dot.
+Print Assumptions ctor_MatMul.
+Print Assumptions ctor_Patch_model.
+Print Assumptions ctor_arith_model.
+Print Assumptions ctor_table_names.
+Print Assumptions ctor_table_ok.
